@@ -64,6 +64,11 @@ func zzDeviate(tag string, n int) int {
 func zzHeader(h *eth.Header, want uint64) {
 	if zzMode == 1 && zzNode != nil {
 		zzNodeHeader(h, want)
+		if zzAllowFail && zzvrf.Bool("honest-node-answers-with-a-wrong-number") {
+			// a decodable but inconsistent answer: rejected by validation
+			zzFailures++
+			h.Number = eth.Uint64(want + 1)
+		}
 		return
 	}
 	if zzMode == 1 {
